@@ -61,11 +61,12 @@ def gen_op_cases(prop: str, tier: str, seed: int, n_quick: int, n_thorough: int,
         if len(op.diff) >= 2 and rng.random() < 0.12:
             cfg["_frozen"] = rng.choice(sorted(op.diff))
         # data MAGNITUDE: the two draws of a configuration differ in scale, not only in sign pattern
-        if rng.random() < 0.25:
-            if fn in ("rms_norm", "layer_norm"):
-                cfg["_mags"] = [1e-4, 1, 300, 1, 3e-3]
-            elif fn in ("gelu", "silu", "silu_glu", "softmax", "dropout", "add", "mse_loss"):
-                cfg["_mags"] = [1e-2, 1, 50, 1, 7]
+        if fn in ("rms_norm", "layer_norm") and rng.random() < 0.5:
+            cfg["_mags"] = [1e-4, 1, 300, 1, 3e-3]
+            if dtypes and rng.random() < 0.6:
+                dt = rng.choice(["float16", "float16", "bfloat16"])  # where a square or a sum can overflow / underflow
+        elif fn in ("gelu", "silu", "silu_glu", "softmax", "dropout", "add", "mse_loss") and rng.random() < 0.25:
+            cfg["_mags"] = [1e-2, 1, 50, 1, 7]
         if fn == "conv1d" and dt in ("bfloat16", "float16"):
             # PyTorch's own low-precision CPU conv kernels are unusable as a reference: bfloat16 conv1d backward returns
             # uninitialised memory in padding-only positions (not reproducible run to run, shown with plain F.conv1d) and
